@@ -314,7 +314,8 @@ func Main(t *testing.T, h Harness) {
 			src = &logSource{Source: src, f: f}
 		}
 		curRun = i
-		res := h.runOnce(t, src, tier, false)
+		res := h.runOnce(t, src, tier, os.Getenv("VERIF_RECORD") != "")
+		wo.Samples = res.Trace
 		if res.Violation != nil {
 			wo.ReplayMsg = "the run completed with oracle " + res.Violation.Oracle
 		} else {
@@ -354,7 +355,10 @@ func Main(t *testing.T, h Harness) {
 		// print the trace hash of runs [from,to) — used by the determinism self-test
 		seed, from, to := envU("VERIF_SEED", 1), envU("VERIF_FROM", 0), envU("VERIF_TO", 100)
 		for i := from; i < to; i++ {
-			res := h.runOnce(t, simrt.NewRNG(simrt.SplitMix(seed, i)), tier, false)
+			res := h.runOnce(t, simrt.NewRNG(simrt.SplitMix(seed, i)), tier, os.Getenv("VERIF_RECORD") != "")
+			if os.Getenv("VERIF_RECORD") != "" {
+				wo.Samples = append(wo.Samples, res.Trace...)
+			}
 			v := "-"
 			if res.Violation != nil {
 				v = res.Violation.Oracle
